@@ -34,7 +34,7 @@ def S(comp, proj, checks, quick, thorough, params=None, explicit=None, exhaustiv
 
 
 def sim_stream(proj, chk, extra=None, nq=3000, nt=150000):
-    p = {"kinds": ["loaded", "loaded", "parts"]}
+    p = {"kinds": ["loaded", "loaded", "parts", "handbuilt"]}
     p.update(extra or {})
     return S("sim", proj, chk, nq, nt, p)
 
